@@ -63,12 +63,16 @@ class Mode:
         def _rec(self_, name, kw):
             drv.on_call(self_, name, kw)
 
+        # the function behind a state need not carry the attribute's name (states built with the call form from helper
+        # functions): the state is reached under the attribute name, its duration is '<function name>_duration'
+        self.fprefix = "do_" if uid % 4 == 2 else ""
+
         def mkfn(name, params):
             src = "def %s(self%s):\n    _rec(self, %r, dict(%s))\n" % (
-                name, "".join(", " + p for p in params), name, ", ".join("%s=%s" % (p, p) for p in params))
+                self.fprefix + name, "".join(", " + p for p in params), name, ", ".join("%s=%s" % (p, p) for p in params))
             ns = {"_rec": _rec}
             exec(src, ns)
-            return ns[name]
+            return ns[self.fprefix + name]
         def mkfn_tagged(name):
             src = "def %s(self):\n    _rec(self, %r, {})\n" % (name, name + "@sibling")
             env = {"_rec": _rec}
@@ -141,13 +145,13 @@ class Mode:
         self.cb = []
         if k == "enable":
             o.on_enable()
-            durs = {s: ticks(getattr(o, s + "_duration")) for s in self.shape["states"] if self.shape["durOf"][s] != -1}
+            durs = {s: ticks(getattr(o, self.fprefix + s + "_duration")) for s in self.shape["states"] if self.shape["durOf"][s] != -1}
             return {"cb": [], "dur": durs, "v": qv(o.v)}
         if k == "disable":
             o.on_disable()
             return {"cb": []}
         if k == "sdw":
-            self.table.putNumber("%s\\%s_duration" % (self.name, ev["s"]), ev["d"] / 64.0)
+            self.table.putNumber("%s\\%s_duration" % (self.name, self.fprefix + ev["s"]), ev["d"] / 64.0)
             return {"cb": []}
         if k == "varw":
             self.table.putNumber("%s\\v" % self.name, ev["v"] / 4.0)
